@@ -12,7 +12,7 @@ RULE = ("Input A (nucleotide over ACGTUN or protein over 20 aa + BZX, generated 
         "API. Oracle: the gap pattern of every row is identical in both runs and the letters of A' rows are A' letters. "
         "Non-trivial = mask changes >= 1 residue and the result has gaps; distinct by hash of the case.")
 ASSUMPTIONS = ["pairs whose detected kind differs between A and A' are discarded and counted (kind detection is C13's subject)"]
-BUDGET = {"quick": dict(examples=150, workers=12, seconds=75), "thorough": dict(examples=1200, workers=16, seconds=600)}
+BUDGET = {"quick": dict(examples=500, workers=12, seconds=75), "thorough": dict(examples=1200, workers=16, seconds=600)}
 
 
 def apply_mask(seqs, kind, mode, pcase, ptu, seed):
